@@ -11,6 +11,8 @@ MSG_ASSUMPTIONS = [
     "reference layouts (spec/Layouts.tla) transcribed from the message structs, option enums and documented field order",
     "reference tokeniser (harness/src/tok.rs) as specified in spec/Tokens.tla",
     "concrete field contents from data/contents.json, each pre-validated stand-alone against its field parser on every run",
+    "content policies: 0 = typical content, 1 = alternative contents (repeated tags get different contents), >= 2 = boundary-shaped "
+    "contents (min / max lengths, absent optional parts, single line ...) drawn from the FieldFormats shape space",
     "bounds: walks with at most K optional elements present or all present, one non-default option per walk, "
     "sequence repetitions {min,1,2,cap,cap+1}; mutations as configured in the MC_MessageParse_*.cfg of the tier",
 ]
@@ -531,7 +533,7 @@ def check_c05(tier, t0):
                 "each content is computed by the generic matcher InLanguage; non-trivial = every content but the typical one",
         "samples": s["samples"] or [{}],
         "fields_covered": s["fields"],
-        "fields_not_covered": ["19", "36", "37H (amount-only: C06)", "23", "23B", "25P", "28D", "50F", "52B-57B", "61", "77T",
+        "fields_not_covered": ["23", "23B", "25P", "28D", "50F", "52B-57B", "61", "77T",
                                "option enums (C14)"],
         "multi_deviation_cases_subsumed": s.get("subsumed_multi_deviation", 0),
         "panics_noted_for_C07": s["panics_noted_for_C07"],
